@@ -265,6 +265,44 @@ Theorem extensions_stop_in_reverse : forall g x o f,
 Proof. exact l_ext_reverse. Qed.
 Print Assumptions extensions_stop_in_reverse.
 
+(* "on shutdown the order is reversed", pipeline components — WHICH order ShutdownAll uses, exactly:
+   the Shutdown calls are the component subsequence of the order returned by ShutdownAll's OWN
+   topo.Sort; the Start calls a prefix of the reversed component subsequence of StartAll's sort.
+   The two sorts are independent, so the shutdown sequence is in general NOT the reverse of the start
+   sequence (component_stop_need_not_reverse_start below); it is when both sorts return the same order
+   and every component started.  The consequence the property draws — a component is shut down only after
+   every component that sends data to it — holds for every topology and every pair of sort results:
+   stop_upstream_first. *)
+Theorem component_orders : forall g x o f,
+  let L := fst (collector_run g x o f) in
+  cstops L = filter (is_comp g) (stop_order o) /\
+  prefix (cstarts L) (filter (is_comp g) (rev (start_order o))) /\
+  (stop_order o = start_order o -> cstarts L = filter (is_comp g) (rev (start_order o)) -> cstops L = rev (cstarts L)).
+Proof. exact l_component_orders. Qed.
+Print Assumptions component_orders.
+
+(* the literal reading "the shutdown order is the reverse of the start order" is FALSE of the code for
+   pipeline components: a valid pair of sort results where it fails (Witness.o1) *)
+Theorem component_stop_need_not_reverse_start : exists g x o f,
+  orders_ok g x o = true /\ cstops (fst (collector_run g x o f)) <> rev (cstarts (fst (collector_run g x o f))).
+Proof. exact l_component_stop_not_reverse. Qed.
+Print Assumptions component_stop_need_not_reverse_start.
+
+(* lists the service accepts with repetitions: service::extensions naming an extension several times
+   still yields a duplicate-free extension set, and every configured extension is started at most once
+   and shut down exactly once *)
+Theorem extension_set_has_no_duplicates : forall configured,
+  NoDup (extensions_new configured) /\ forall e, In e (extensions_new configured) <-> In e configured.
+Proof. exact (fun c => conj (dedup_NoDup c) (fun e => dedup_In e c)). Qed.
+Print Assumptions extension_set_has_no_duplicates.
+
+Theorem configured_twice_started_once : forall g x configured pe ps pp o f,
+  exts x = extensions_new configured -> edges_in (exts x) (deps x) -> NoDup (nodes g) -> edges_in (nodes g) (edges g) ->
+  orders_by g x pe ps pp = Some o ->
+  forall e, In e configured -> count (XStart e) (log g x o f) <= 1 /\ count (XStop e) (log g x o f) = 1.
+Proof. exact l_configured_twice_started_once. Qed.
+Print Assumptions configured_twice_started_once.
+
 (* a shared component is STARTED exactly once as soon as one of the graph nodes that share it starts *)
 Theorem shared_started_once : forall g x o f shared k fs fp n,
   In (CStart n) (log g x o f) -> key_of shared n = Some k ->
